@@ -84,8 +84,9 @@ register('C10', [
     'window bounds are integer-valued f64 from i16 (rule obligations) / arbitrary f64 bit patterns (totality obligation)',
     'the documentation does not say whether an empty times list is allowed: only totality is demanded for it',
 ], [
-    'JSON/serde layer, RFC3339 parsing (time crate), all String-keyed rules (ids, duplicates, relations, objectives, routing/matrix rules)',
-    'E1102 demand sums (behind ValidationContext, not constructible symbolically)',
+    'JSON/serde layer, RFC3339 parsing (time crate), all String-keyed rules (ids, duplicates, reserved ids, relations, objectives, routing/matrix rules), vehicle rules other than the time-window ones',
+    'job rules E1101/02/05/06/07 are decided on one job per document with the stated task layouts (the rules are per-job filters); error message text (format!/join are empty stubs)',
+    'negative zero as a duration (the exact-int float domain has no -0.0)',
 ])
 
 register('C16', [
